@@ -281,8 +281,12 @@ impl Gate {
             "Cannot add connection, gates allready connected to multiple points"
         );
 
+        // The provided channel is only a template: each direction gets its own
+        // instance (fresh state, identical metrics). Using the callers handle
+        // itself for one direction would share that directions transmission state
+        // with every other link build from the same handle.
         let ch1 = channel.as_ref().map(|c| Arc::new(c.dup()));
-        let ch2 = channel;
+        let ch2 = channel.as_ref().map(|c| Arc::new(c.dup()));
 
         conns.put(Connection {
             endpoint: other.clone(),
